@@ -68,6 +68,15 @@ func Judge(sc *Scenario, mr *ModelRun, out *Outcome) []Finding {
 	}
 	if out.Panic != "" {
 		add("C01", "panic", "Run panicked: %s", out.Panic)
+		// a callback returned an error and, instead of handing that error back, Run panicked on it
+		for i := len(out.Events) - 1; i >= 0; i-- {
+			if e := out.Events[i]; e.Phase != "anomaly" {
+				if e.Ret != "" {
+					add("C04", "panic-instead-of-error:"+kn(e.Node), "callback %s returned error %s; Run did not return that error but panicked: %s", e.Key(), e.Ret, out.Panic)
+				}
+				break
+			}
+		}
 		return fs
 	}
 	for _, e := range out.Events {
